@@ -4,6 +4,7 @@ import Driver.IdxDrv
 import Driver.VmDrv
 import Driver.FfiDrv
 import Driver.LedgerDrv
+import Driver.NumDrv
 
 def main (args : List String) : IO UInt32 := do
   match args with
@@ -13,4 +14,5 @@ def main (args : List String) : IO UInt32 := do
   | "vm" :: rest => VmDrv.main rest
   | ["ffi"] => FfiDrv.main; return 0
   | ["ledger"] => LedgerDrv.main; return 0
+  | ["num"] => NumDrv.main; return 0
   | _ => IO.eprintln "usage: nmdrv gc|..."; return 2
